@@ -416,6 +416,14 @@ def rule_source_helpers(check, rules):
                                         guards=lits_text(sp.lits), witness="a callable reached twice keeps its smallest depth")
                     else:
                         check.holds(rules['arith'], st, 'a larger depth does not replace the smaller one', key=key, guards=lits_text(sp.lits))
+                elif sets and (isin is None or (isin is True and larger is None)):
+                    check.violation(rules['arith'], st, 'an entry is written without knowing that the depth already recorded for that callable is not '
+                                    'smaller (%s): a callable reached twice can end up with the larger depth'
+                                    % ('no membership test' if isin is None else 'no depth comparison'), key=key, guards=lits_text(sp.lits),
+                                    witness="merge_depths({f: 1}, {f: 3}) == {f: 1}")
+                elif not sets and isin is True and larger is None:
+                    check.violation(rules['arith'], st, 'an existing entry is never updated, also when the new depth is smaller', key=key,
+                                    guards=lits_text(sp.lits), witness="merge_depths({f: 3}, {f: 1}) == {f: 1}")
                 else:
                     if not sets and (isin is False or larger is False):
                         check.violation(rules['arith'], st, 'a new or smaller depth is not recorded', key=key, guards=lits_text(sp.lits),
